@@ -358,7 +358,8 @@ Inductive op :=
 | RandomCell (d : cterm) (k : Z)           (* d.select_random_cell() *)
 | RandomAgent (d : cterm) (k : Z)          (* d.select_random_agent() *)
 | TryRandomEmpty (tape : list Z)           (* Grid.select_random_empty_cell(), _try_random = True *)
-| MoveOneOf (a : Z) (ps : list coord) (closest : bool) (idxs : list Z) (k : Z).
+| MoveOneOf (a : Z) (ps : list coord) (closest : bool) (idxs : list Z) (k : Z)
+| Reset.                                   (* model.reset_randomizer([seed]) *)
                                            (* grid.move_agent_to_one_of(a, ps, selection) ; ps free cells or a's own *)
 
 Definition obs_err (k : Z) : list Z :=
@@ -456,6 +457,10 @@ Definition step (srt : bool) (w : world) (o : op) : world * list Z :=
       | Ok c => (w, [w_sgen w; c])
       | Err e => (w, obs_err e)
       end
+  | Reset =>
+      (* self.random.seed(seed): the generator OBJECT is re-seeded in place, so model.agents, the by-type sets, the space,
+         its cells and every collection derived earlier still carry it; observed: generator of model.agents, of the space *)
+      (w, [MODEL_GEN; w_sgen w])
   | MoveOneOf a ps closest idxs k =>
       match lpos_of a (w_lgrid w) with
       | None => (w, obs_err E_NOSUCH)
